@@ -156,9 +156,13 @@ const RESERVED: [&str; 22] = [
 ];
 /// multi-byte material: 2/3/4-byte characters, non-ASCII upper case (incl. Other_Uppercase and
 /// characters whose lower case has another byte length), title case, combining marks.  No capital sigma.
-const WIDE: [char; 26] = [
+const WIDE: [char; 46] = [
     'é', 'É', 'Ω', 'ω', 'Ǆ', 'ǅ', 'ǆ', 'А', 'б', 'ß', 'ẞ', 'İ', 'ı', 'K', 'Å', 'Ⅷ', 'Ⓐ', '語', '한', '💖',
     '𝐀', '𐐀', '\u{0301}', '\u{0308}', '\u{200d}', '\u{fe0f}',
+    // titlecase (Lt): not is_uppercase, yet to_lowercase folds them onto their partner; with the partners
+    'ǈ', 'ǉ', 'Ǉ', 'ǋ', 'ǌ', 'ǲ', 'ǳ', 'ᾈ', 'ᾀ', 'ᾼ', 'ᾳ', 'ῼ',
+    // long s (lower case, upper case S); lower case of another byte length: Ohm, theta symbol, Ⱥ (2→3), Ɫ (3→2), ɫ
+    'ſ', 'Ω', 'ϴ', 'Ⱥ', 'ⱥ', 'Ɫ', 'ɫ', 'ℳ',
 ];
 
 fn esc_len(c: char) -> usize {
@@ -265,6 +269,19 @@ fn colliding_variant(rng: &mut Rng, name: &str) -> String {
             s.push('_');
         } else if c == '_' && rng.chance(1, 4) {
             s.push(*rng.pick(&ILLEGAL));
+        } else if !c.is_ascii() && !c.is_uppercase() && rng.chance(1, 2) {
+            // titlecase and other cased letters that are not `is_uppercase`: the lower-case partner gives a
+            // different user name with the same lower-cased file name
+            let l: Vec<char> = c.to_lowercase().collect();
+            if l.len() == 1 {
+                s.push(l[0]);
+            } else {
+                s.push(c);
+            }
+        } else if !c.is_ascii() && c.is_uppercase() && rng.chance(1, 2) {
+            // non-ASCII capital: partner + the underscore marker
+            s.extend(c.to_lowercase());
+            s.push('_');
         } else {
             s.push(c);
         }
